@@ -56,7 +56,6 @@ package runner
 //@   modifies runN, runJob, runErr, ExecutionContext.startupError
 //@   ensures #log-prefix runN >= old(runN) && (forall i int :: i < old(runN) ==> runJob[i] == old(runJob[i]) && runErr[i] == old(runErr[i]))
 //@   ensures err == nil ==> c != nil && c.Env != nil && c.Variables != nil
-//@   ensures !exitOK(err)
 
 //@ func (*ExecutionContext).After
 //@   requires c != nil
@@ -200,3 +199,13 @@ package runner
 //@   ensures result != nil && result.Env != nil && result.Variables != nil
 //@ func WithQuote
 //@   nomod
+
+// ---- execution-context hooks (C14) as used by contextForTask
+//@ func (*ExecutionContext).Up
+//@   requires c != nil
+//@   modifies runN, runJob, runErr, c.startupError
+//@   ensures #log-prefix runN >= old(runN) && (forall i int :: i < old(runN) ==> runJob[i] == old(runJob[i]) && runErr[i] == old(runErr[i]))
+//@ func (*ExecutionContext).Before
+//@   requires c != nil
+//@   modifies runN, runJob, runErr
+//@   ensures #log-prefix runN >= old(runN) && (forall i int :: i < old(runN) ==> runJob[i] == old(runJob[i]) && runErr[i] == old(runErr[i]))
